@@ -101,6 +101,8 @@ def q__Tx__sign(self, *args, **kwargs):
 
 # pycoin/coins/Tx.py :: Tx.check_solution
 def q__Tx__check_solution(self, tx_in_idx, *args, **kwargs):
+    if len(self.unspents) <= tx_in_idx or self.unspents[tx_in_idx] is None:
+        raise ScriptError()
     sc = self.SolutionChecker(self)
     tx_context = sc.tx_context_for_idx(tx_in_idx)
     sc.check_solution(tx_context, *args, **kwargs)
